@@ -1,8 +1,8 @@
 #!/bin/bash
 # run_all.sh <seed> [tier] : every claimed check once, sequentially; prints rc and wall time per check
-seed=${1:-1}; tier=${2:-quick}
+seed=${1:-}; tier=${2:-quick}
 cd /verif
 for id in $(python3 -c "import json;print(' '.join(c['property_id'] for c in json.load(open('MANIFEST.json'))['checks']))"); do
-  t0=$(date +%s); VERIF_SEED=$seed ./check $id --tier $tier > /tmp/runall_${id}_$seed.log 2>&1; rc=$?; t1=$(date +%s)
+  t0=$(date +%s); ${seed:+env VERIF_SEED=$seed} ./check $id --tier $tier > /tmp/runall_${id}_$seed.log 2>&1; rc=$?; t1=$(date +%s)
   echo "$id seed=$seed rc=$rc wall=$((t1-t0))s $(grep -c '^VIOLATION' /tmp/runall_${id}_$seed.log) violations, $(grep -c '^KNOWN-FINDING' /tmp/runall_${id}_$seed.log) known"
 done
